@@ -216,30 +216,36 @@ Proof.
     + apply Z.ltb_ge in E2. rewrite C by lia. reflexivity.
 Qed.
 
-(* PRE-FIX ONLY: enc_len_4095_refused below and decode_long_refuted further down hold on the pinned tree
-   (`lc < FLOW_LENGTH_EXTENDED_MAX`, FLOW_LENGTH_EXTENDED_SHIFT = 16).  Once /repo is repaired
-   (`<=`, shift 8) replace them by (checked against the repaired constants):
-
-   Lemma enc_len_4095_sent :
-     valid_rule false rule4095 = true /\ Z.of_nat (length (enc_body false rule4095)) = 4095 /\
-     enc_flow false rule4095 = Some ([255; 255] ++ enc_body false rule4095).
-   Proof. vm_compute. auto. Qed.
-   Lemma enc_len_full : forall body,
-     enc_len body = option_map (fun h => h ++ body) (ref_length (Z.of_nat (length body))).
-   Proof.
-     intros body. destruct (Z.eq_dec (Z.of_nat (length body)) 4095) as [E|E]; [|apply enc_len_is_rfc; exact E].
-     unfold enc_len, ref_length, len_compact, len_extended, LEN_EXT_VALUE. rewrite E. reflexivity.
-   Qed.
-   Lemma decode_long_agrees :
-     llen nlri257 = 259 /\ exists mr, dec_flow false false nlri257 = DOk mr [] /\
-     ref_flow false false nlri257 = ROk (abs_rule mr) [].
-   Proof. split; [reflexivity|]. eexists; split; vm_compute; reflexivity. Qed.
-   Every other lemma of this file compiles unchanged before and after the repair. *)
 Definition rule4095 : mrule := mkMRule [] [MOps 5 (repeat (0, 1, 80) 2047)].
-Lemma enc_len_4095_refused :
+(* a 4095-octet body (destination-port with 2047 values) is sent with the length written ff ff
+   (repaired by /repo df33a87; it used to be refused) *)
+Lemma enc_len_4095_sent :
   valid_rule false rule4095 = true /\ Z.of_nat (length (enc_body false rule4095)) = 4095 /\
-  ref_length 4095 = Some [255; 255] /\ enc_flow false rule4095 = None.
+  enc_flow false rule4095 = Some ([255; 255] ++ enc_body false rule4095).
 Proof. vm_compute. auto. Qed.
+
+(* Flow._encode_length is RFC 8955 4.1 for every body *)
+Lemma enc_len_full : forall body,
+  enc_len body = option_map (fun h => h ++ body) (ref_length (Z.of_nat (length body))).
+Proof.
+  intros body. destruct (Z.eq_dec (Z.of_nat (length body)) 4095) as [E|E]; [|apply enc_len_is_rfc; exact E].
+  unfold enc_len, ref_length, len_compact, len_extended, LEN_EXT_VALUE. rewrite E. reflexivity.
+Qed.
+
+Lemma enc_len_cases_full : forall body,
+  let n := Z.of_nat (length body) in
+  (n < 240 -> enc_len body = Some (n :: body)) /\
+  (240 <= n < 4096 -> enc_len body = Some ((240 + n / 256) :: n mod 256 :: body)) /\
+  (4096 <= n -> enc_len body = None).
+Proof.
+  intros body n. rewrite enc_len_full. fold n. unfold ref_length.
+  repeat split; intros H.
+  - replace (n <? 240) with true by (symmetry; apply Z.ltb_lt; lia). reflexivity.
+  - replace (n <? 240) with false by (symmetry; apply Z.ltb_ge; lia).
+    replace (n <? 4096) with true by (symmetry; apply Z.ltb_lt; lia). reflexivity.
+  - replace (n <? 240) with false by (symmetry; apply Z.ltb_ge; lia).
+    replace (n <? 4096) with false by (symmetry; apply Z.ltb_ge; lia). reflexivity.
+Qed.
 
 (* ---------------------------------------------------------------- decoder against the RFC walk *)
 
@@ -606,9 +612,12 @@ Qed.
 (* ---------------------------------------------------------------- witnesses of the defects *)
 
 Definition nlri257 : list Z := [241; 1; 5] ++ flat_map (fun _ => [1; 80]) (seq 0 127) ++ [129; 80].
-Lemma decode_long_refuted :
-  llen nlri257 = 259 /\ (exists r, ref_flow false false nlri257 = ROk r []) /\ dec_flow false false nlri257 = DRaise.
-Proof. split; [reflexivity|]. split; [eexists; vm_compute; reflexivity|vm_compute; reflexivity]. Qed.
+(* a well-formed NLRI of 257 octets (length written f1 01) is decoded to the reference rule
+   (repaired by /repo 9e3ea9b; it used to raise Notify 3/10) *)
+Lemma decode_long_agrees :
+  llen nlri257 = 259 /\ exists mr, dec_flow false false nlri257 = DOk mr [] /\
+  ref_flow false false nlri257 = ROk (abs_rule mr) [].
+Proof. split; [reflexivity|]. eexists; split; vm_compute; reflexivity. Qed.
 
 (* destination a500::/8/1 as RFC 8956 writes it: 7 pattern bits 0100101, one octet 0x4a *)
 Lemma decode_offset_refuted :
